@@ -227,7 +227,12 @@ def check(ctx) -> None:
     for g in sel_funcs:
         gcfg = None
         for n in own_nodes(g.node):
-            if isinstance(n, ast.Subscript) and isinstance(n.slice, ast.Constant) and isinstance(n.slice.value, int) and isinstance(n.value, ast.Subscript) and const_str(n.value.slice) in LIST_FIELDS and isinstance(n.ctx, ast.Load):
+            alias_of = None
+            if isinstance(n, ast.Subscript) and isinstance(n.slice, ast.Constant) and isinstance(n.slice.value, int) and isinstance(n.value, ast.Name) and isinstance(n.ctx, ast.Load):
+                d_ = assignments_to(g, n.value.id)
+                if len(d_) == 1 and d_[0][2] is None and isinstance(d_[0][1], ast.Subscript) and const_str(d_[0][1].slice) in LIST_FIELDS:
+                    alias_of = d_[0][1]
+            if (isinstance(n, ast.Subscript) and isinstance(n.slice, ast.Constant) and isinstance(n.slice.value, int) and isinstance(n.value, ast.Subscript) and const_str(n.value.slice) in LIST_FIELDS and isinstance(n.ctx, ast.Load)) or alias_of is not None:
                 lst_txt = unparse(n.value)
                 n_x8 += 1
                 guarded = False
@@ -256,7 +261,7 @@ def check(ctx) -> None:
                     guarded = guarded or ok_t
                 ctx.instance("C11-X8", "%s: %s" % (g.name, unparse(n)[:60]), g.loc(n), ok=guarded)
                 if not guarded:
-                    ctx.finding("C11-X8", "%s:unguarded-index:%s" % (g.qualname.split("synrbl.", 1)[-1].split(".")[-1], const_str(n.value.slice)), g.loc(n), "%s is read without testing that the list is non-empty; a reaction whose search failed or timed out under every condition has an empty list, the IndexError escapes the MCS stage and the whole batch is dropped" % unparse(n)[:60])
+                    ctx.finding("C11-X8", "%s:unguarded-index:%s" % (g.qualname.split("synrbl.", 1)[-1].split(".")[-1], const_str((alias_of if alias_of is not None else n.value).slice)), g.loc(n), "%s is read without testing that the list is non-empty; a reaction whose search failed or timed out under every condition has an empty list, the IndexError escapes the MCS stage and the whole batch is dropped" % unparse(n)[:60])
     ctx.require(n_x8 >= 1, "no indexed read of a per-job result list found in the selection step")
     # ---------------------------------------------------------------- X10
     # the stage functions outside the per-row handlers see an *empty* list of records when every reaction of the batch
